@@ -76,10 +76,20 @@ def build_case(cap, margs, info_by_style, g, dm, ann, variant, style, lay, tier,
     label = label or cap
     if "doc" not in g:
         raise Unsupported("definition in the user guide not understood: " + g["error"])
-    text, iname, kern = G.make_psy(info, dm, ann, variant)
-    it = G.itemise(text, iname)
+    if style == "multi":
+        # coded kernel + built-in under a transformation history
+        ops = G.HISTORIES[variant]
+        text, iname = G.make_psy_multi(info, dm, ann, ops)
+        it = G.itemise(text, iname,
+                       bfields={a["name"] for a in actual if a["kind"] == "field"})
+        if it.skipped_loops != 1:
+            raise Unsupported("%d coded-kernel loop nests found" % it.skipped_loops)
+        threads = _threads(tier, "ompl" if "omp_b" in ops else "plain", False)
+    else:
+        text, iname, _ = G.make_psy(info, dm, ann, variant)
+        it = G.itemise(text, iname)
+        threads = _threads(tier, variant, bool(it.alloc))
     undf = G.LAYOUT_UNDF[lay]
-    threads = _threads(tier, variant, bool(it.alloc))
     if it.alloc and len(threads) > 1:
         # the thread count is the second extent of the reproducible-sum array:
         # one case per thread count
@@ -92,10 +102,13 @@ def build_case(cap, margs, info_by_style, g, dm, ann, variant, style, lay, tier,
         decls, prog, syn = G.export(it, undf, max(thr))
         if bind is None:
             bind = G.bind_doc(g["args"], actual, it)
+        bound = {v["name"] for v in bind.values() if v.get("k") == "ref"}
         dom = []
         for d in decls:
             if d["init"] == "in" and not d["dims"]:
-                dom.append([d["name"], REAL_VALUES if d["ty"] == "r" else INT_VALUES])
+                vals = REAL_VALUES if d["ty"] == "r" else INT_VALUES
+                # a scalar of another kernel of the invoke: one value
+                dom.append([d["name"], vals if d["name"] in bound else vals[3:4]])
         red = ""
         for n, (ty, intent) in it.scalars.items():
             if intent == "out":
@@ -112,7 +125,7 @@ def build_case(cap, margs, info_by_style, g, dm, ann, variant, style, lay, tier,
                      "fields": sorted(it.data), "scalars": [d[0] for d in dom],
                      "red": red},
             "meta": {"builtin": cap, "dm": dm, "ann": ann, "variant": variant,
-                     "style": style, "lay": lay, "bounds": it.bounds,
+                     "style": style, "lay": lay, "bounds": sorted(set(it.bounds)),
                      "doc_line": g["line"], "doc_text": g["text"],
                      "doc_args": [a[0] for a in g["args"]],
                      "algorithm": alg, "generated": syn}})
@@ -197,9 +210,56 @@ def _build_file(fname, tier, table):
     return res
 
 
+MULTI_ALWAYS = ("setval_c", "X_plus_Y", "inc_aX_plus_Y", "sum_X")
+
+
+def multi_builtins(tier, table):
+    '''Built-ins that are also generated behind a coded kernel under
+    transformation histories: all (thorough) or four fixed ones plus four
+    chosen by VERIF_SEED (quick).'''
+    import random
+    caps = [cap for cap, _ in table]
+    if tier != "quick":
+        return caps
+    rest = sorted(c for c in caps if c not in MULTI_ALWAYS)
+    extra = random.Random(1000 + core.seed()).sample(rest, min(4, len(rest)))
+    return [c for c in caps if c in MULTI_ALWAYS or c in extra]
+
+
+def _build_multi(cap, margs, tier):
+    from psyclone.parse.algorithm import parse
+    res = {"builtin": "multi:" + cap, "cases": [], "unsupported": [], "nodoc": False,
+           "skipped": None, "refused": []}
+    g = _GUIDE.get(cap.lower())
+    if g is None:
+        res["nodoc"] = True
+        return res
+    tmp = core.mktemp("pv-c20-")
+    try:
+        alg, actual = G.alg_source_multi(cap, margs)
+        path = os.path.join(tmp, "alg_multi.f90")
+        with open(path, "w") as f:
+            f.write(alg)
+        _, info = parse(path, api="dynamo0.3", kernel_paths=[test_dir()])
+        info_by_style = {"multi": (info, actual, alg)}
+        for dm, ann in ((0, 0), (1, 0), (1, 1)):
+            for hist in sorted(G.HISTORIES):
+                label = "multi:%s|dm%d|ann%d|%s" % (cap, dm, ann, hist)
+                try:
+                    res["cases"] += build_case(cap, margs, info_by_style, g, dm, ann,
+                                               hist, "multi", 1, tier, label="multi:" + cap)
+                except G.Refused as err:
+                    res["refused"].append((label, str(err)))
+                except Unsupported as err:
+                    res["unsupported"].append((label, str(err)))
+    finally:
+        shutil.rmtree(tmp, ignore_errors=True)
+    return res
+
+
 def _build(job):
-    '''All cases of one built-in (generated algorithm files) or of one of
-    the repository's algorithm files.'''
+    '''All cases of one built-in (generated algorithm files), of one of the
+    repository's algorithm files, or of one built-in behind a coded kernel.'''
     kind, cap, margs, tier = job
     core.setup_psyclone_env()
     from psyclone.parse.algorithm import parse
@@ -208,6 +268,8 @@ def _build(job):
         _GUIDE = D.parse_guide()
     if kind == "file":
         return _build_file(cap, tier, margs)
+    if kind == "multi":
+        return _build_multi(cap, margs, tier)
     res = {"builtin": cap, "cases": [], "unsupported": [], "nodoc": False, "skipped": None}
     g = _GUIDE.get(cap.lower())
     if g is None:
@@ -328,6 +390,49 @@ def signature_disagreements(guide, table):
     return res
 
 
+def undefined_hint(case):
+    '''Diagnostic for a NoNewUndefined verdict (TLC has decided; this only
+    names the culprit): loop-bound variables of the recorded code that are
+    read by a DO statement without an earlier assignment.'''
+    defined = {d["name"] for d in case["decls"] if d["init"] == "in"}
+    defined |= set(G.CONSTS)
+    bad = []
+
+    def refs(e):
+        if isinstance(e, dict):
+            if e.get("k") == "ref":
+                yield e["name"]
+            for v in e.values():
+                yield from refs(v)
+        elif isinstance(e, list):
+            for v in e:
+                yield from refs(v)
+
+    def loop(lp):
+        for key in ("lo", "hi", "st"):
+            for n in refs(lp[key]):
+                if n not in defined and n not in bad:
+                    bad.append(n)
+
+    def walk(stmts):
+        for st in stmts:
+            k = st["k"]
+            if k == "assign":
+                for n in refs(st["rhs"]):
+                    if n not in defined and n not in bad and n.startswith("loop"):
+                        bad.append(n)
+                if st["lhs"]["k"] == "ref":
+                    defined.add(st["lhs"]["name"])
+            elif k == "loop":
+                loop(st)
+            elif k in ("ompparalleldo", "ompdo"):
+                loop(st["loop"])
+            elif k == "ompparallel":
+                walk(st["body"])
+    walk(case["prog"])
+    return bad
+
+
 # --------------------------------------------------------------------- run
 def run(tier):
     core.setup_psyclone_env()
@@ -343,18 +448,24 @@ def run(tier):
     import time
     t0 = time.time()
     jobs = [("gen", cap, margs, tier) for cap, margs in table]
+    multi = set(multi_builtins(tier, table))
+    jobs += [("multi", cap, margs, tier) for cap, margs in table if cap in multi]
     if not only:
         jobs += [("file", f, dict(table), tier) for f in repo_files()]
+    fams = os.environ.get("PV_C20_FAMILIES")   # development aid: gen,multi,file
+    if fams:
+        jobs = [j for j in jobs if j[0] in fams.split(",")]
     results = core.pool_map(_build, jobs, procs=_W, chunksize=1)
     t_build = time.time() - t0
     names = {cap.lower() for cap, _ in G.builtin_table()}
     undocumented = sorted(r["builtin"] for r in results if r["nodoc"])
     skipped = {r["builtin"]: r["skipped"] for r in results if r.get("skipped")}
     doc_only = sorted(set(guide) - names)
-    built, unsupported = [], []
+    built, unsupported, refused = [], [], []
     for r in results:
         built += r["cases"]
         unsupported += r["unsupported"]
+        refused += r.get("refused", [])
     total = len(built) + len(unsupported)
     if total == 0 or len(unsupported) > 0.2 * total:
         raise core.MachineryError("too many unsupported cases: %d of %d: %s"
@@ -409,14 +520,19 @@ def run(tier):
         for rec in recs:
             by_clause.setdefault(rec["v"], []).append(rec)
         for clause, rs in sorted(by_clause.items()):
+            hint = ""
+            if clause == "NoNewUndefined":
+                und = undefined_hint(tlc_case[cid])
+                if und:
+                    hint = " never-assigned-loop-bound=%s" % ",".join(und)
             if nprinted < 40:
-                print(verdict_line(rs[0]) + " definition=%r (%d failing inputs)"
+                print(verdict_line(rs[0]) + hint + " definition=%r (%d failing inputs)"
                       % (" / ".join(m["doc_text"]), len(rs)))
                 nprinted += 1
             case = {"id": cid, **m, "tlc_case": tlc_case[cid],
                     "replay": "PV_CASES=<file holding [tlc_case]> tlc -config "
                               "spec/LFRicBuiltins_replay.cfg spec/LFRicBuiltins.tla"}
-            detail = {"n_failing_inputs": len(rs), "first": verdict_line(rs[0]),
+            detail = {"n_failing_inputs": len(rs), "first": verdict_line(rs[0]) + hint,
                       "witnesses": [r["w"] for r in rs[:3]]}
             out.violation(case, clause, detail)
     bounds = {}
@@ -438,6 +554,9 @@ def run(tier):
            "builtins": len(table), "documented_builtins": len(guide),
            "repository_algorithm_files": len([j for j in jobs if j[0] == "file"]),
            "repository_files_skipped": skipped,
+           "kernel_plus_builtin_invokes": sorted(multi),
+           "histories": {k: list(v) for k, v in G.HISTORIES.items()},
+           "histories_refused": len(refused), "refused_samples": refused[:3],
            "vacuous_file_cases": empty,
            "heading_vs_metadata_disagreements": signature_disagreements(guide, table),
            "build_s": round(t_build, 1), "tlc_s": round(t_tlc, 1),
@@ -468,4 +587,9 @@ def run(tier):
         "arrays to field arguments; halo exchanges and set_dirty/clean do not change owned or "
         "annexed DoFs (C22); the global sum of a single process is the identity",
         "setval_random: range only (which DoFs are set), values unspecified",
+        "kernel + built-in invokes under transformation histories: the coded kernel's loop nest "
+        "is projected away (its effect on the fields is covered by quantifying over the fills); "
+        "every loopN_start/stop its DO statements read must be defined (pv_sink = bound); sizes "
+        "of other function spaces and cell counts are a defined value different from every DoF "
+        "count of the built-in's space",
         "the exporter (PSyclone Fortran frontend + pv.export) is trusted and fails closed"])
